@@ -656,6 +656,31 @@ func main() {
 				break
 			}
 		}
+		// sole-reference groups: the argument is the only path of these types into the type map
+		suppliedSet := map[string]bool{}
+		for _, n := range supplied {
+			suppliedSet[n] = true
+		}
+		for _, g := range []struct{ pre, tag string }{
+			{"Ao", "sole-path:interface-field-argument-types(no-implementer-in-type-map)"},
+			{"Oo", "sole-path:object-field-argument-types"},
+			{"Do", "sole-path:directive-argument-types"}} {
+			if c.Desc.Type(g.pre+"In") == nil {
+				continue
+			}
+			only := true
+			for _, t := range c.Desc.Types {
+				if strings.HasPrefix(t.Name, g.pre) && suppliedSet[t.Name] && t.Name != "AoI" {
+					only = false
+				}
+			}
+			if only && inMap[g.pre+"Enum"] && inMap[g.pre+"In"] && inMap[g.pre+"Enum2"] {
+				run.Tag(g.tag)
+				if g.pre == "Ao" && c.Desc.Type("HeldImpl") != nil {
+					run.Tag(g.tag + ":implementer-withheld")
+				}
+			}
+		}
 		if w.retyped > 0 {
 			run.Tag("has-defaults-configured-as-typed-slices")
 		}
